@@ -79,6 +79,7 @@ Section Sink.
   Notation tstep := (tstep payload err0 pid body).
   Notation step := (step payload err0 pid body).
   Notation init := (init payload err0).
+  Notation init_with := (init_with payload err0).
   Notation init_thread := (init_thread payload err0).
 
   (* an invocation alone (its frame only; the environment is never looked at) *)
@@ -165,15 +166,15 @@ Section Sink.
   (* every state reachable under any schedule, any number of invocations *)
   Lemma reach (sh : sharing) :
     (forall v, sh v = false) ->
-    forall evs sched s',
-      run (step sh) (init evs) sched = Some s' ->
+    forall o evs sched s',
+      run (step sh) (init_with o evs) sched = Some s' ->
       List.length (g_threads s') = List.length evs /\
       forall i ev, nth_error evs i = Some ev ->
         exists th, nth_error (g_threads s') i = Some th /\ good i ev th /\
                    count_occ Nat.eq_dec sched i <= 8.
   Proof.
-    intros Hsh evs sched s' Hrun.
-    pose proof (run_is_grun sh Hsh sched (init evs)) as H. rewrite Hrun in H. simpl in H.
+    intros Hsh o evs sched s' Hrun.
+    pose proof (run_is_grun sh Hsh sched (init_with o evs)) as H. rewrite Hrun in H. simpl in H.
     symmetry in H. apply noninterference in H. destruct H as (_ & Hlen & H).
     split; [rewrite Hlen; apply map_length|].
     intros i ev Hev. destruct (H i _ (init_threads_nth evs i ev Hev)) as (th & H1 & H2).
@@ -193,8 +194,8 @@ Section Sink.
      what its own event dictates. *)
   Theorem isolation (sh : sharing) :
     (forall v, sh v = false) ->
-    forall evs sched s',
-      run (step sh) (init evs) sched = Some s' ->
+    forall o evs sched s',
+      run (step sh) (init_with o evs) sched = Some s' ->
       List.length (g_threads s') = List.length evs /\
       forall i ev, nth_error evs i = Some ev ->
         exists th, nth_error (g_threads s') i = Some th /\
@@ -203,8 +204,8 @@ Section Sink.
           (t_pc th <> PDone -> step sh s' i <> None) /\
           count_occ Nat.eq_dec sched i <= 8.
   Proof.
-    intros Hsh evs sched s' Hrun.
-    destruct (reach sh Hsh evs sched s' Hrun) as (Hlen & H). split; [exact Hlen|].
+    intros Hsh o evs sched s' Hrun.
+    destruct (reach sh Hsh o evs sched s' Hrun) as (Hlen & H). split; [exact Hlen|].
     intros i ev Hev. destruct (H i ev Hev) as (th & Hn & (Hst & _ & Hdone & Hprog & _) & Hcnt).
     exists th. repeat split; auto.
     intros Hpc. unfold SinkInv.step. rewrite Hn, (tstep_local sh Hsh).
@@ -215,12 +216,12 @@ Section Sink.
      are Isolated. *)
   Theorem isolation_spec (sh : sharing) :
     (forall v, sh v = false) ->
-    forall evs sched s',
-      run (step sh) (init evs) sched = Some s' -> all_done s' = true ->
+    forall o evs sched s',
+      run (step sh) (init_with o evs) sched = Some s' -> all_done s' = true ->
       Isolated payload obs produced evs (map obs_of (g_threads s')).
   Proof.
-    intros Hsh evs sched s' Hrun Hdone.
-    destruct (isolation sh Hsh evs sched s' Hrun) as (Hlen & H). split.
+    intros Hsh o evs sched s' Hrun Hdone.
+    destruct (isolation sh Hsh o evs sched s' Hrun) as (Hlen & H). split.
     - rewrite map_length. exact Hlen.
     - intros i ev Hev. destruct (H i ev Hev) as (th & Hn & _ & Hd & _).
       rewrite nth_error_map, Hn. simpl. f_equal. apply Hd. eapply all_done_nth; eauto.
@@ -230,12 +231,12 @@ Section Sink.
      invocation's own scope — none lost, none duplicated, none moved to another event *)
   Theorem errors_exact (sh : sharing) :
     (forall v, sh v = false) ->
-    forall evs sched s',
-      run (step sh) (init evs) sched = Some s' -> all_done s' = true ->
+    forall o evs sched s',
+      run (step sh) (init_with o evs) sched = Some s' -> all_done s' = true ->
       Isolated payload (option (rerr err0)) expected evs (results s').
   Proof.
-    intros Hsh evs sched s' Hrun Hdone.
-    destruct (isolation sh Hsh evs sched s' Hrun) as (Hlen & H). split.
+    intros Hsh o evs sched s' Hrun Hdone.
+    destruct (isolation sh Hsh o evs sched s' Hrun) as (Hlen & H). split.
     - unfold results. rewrite map_length. exact Hlen.
     - intros i ev Hev. destruct (H i ev Hev) as (th & Hn & _ & Hd & _).
       unfold results. rewrite nth_error_map, Hn. simpl. f_equal.
@@ -248,14 +249,14 @@ Section Sink.
      so the two Lock calls are on two different mutexes *)
   Theorem reparent_locks_distinct (sh : sharing) :
     (forall v, sh v = false) ->
-    forall evs sched s',
-      run (step sh) (init evs) sched = Some s' ->
+    forall o evs sched s',
+      run (step sh) (init_with o evs) sched = Some s' ->
       forall i th, nth_error (g_threads s') i = Some th -> t_pc th = PReparent ->
         exists sc, c_scope (t_loc th) = Some sc /\ sc_owner sc = i /\
                    sc_lock sc = S i /\ NoDup [sc_lock sc; tree_lock].
   Proof.
-    intros Hsh evs sched s' Hrun i th Hn Hpc.
-    destruct (reach sh Hsh evs sched s' Hrun) as (Hlen & H).
+    intros Hsh o evs sched s' Hrun i th Hn Hpc.
+    destruct (reach sh Hsh o evs sched s' Hrun) as (Hlen & H).
     assert (i < List.length evs) as Hi.
     { rewrite <- Hlen. apply nth_error_Some. congruence. }
     destruct (nth_error evs i) as [ev|] eqn:Hev; [|apply nth_error_None in Hev; lia].
@@ -264,6 +265,20 @@ Section Sink.
     destruct (Hre Hpc) as (sc & Hsc & Hl & Ho). exists sc. repeat split; auto.
     rewrite Hl. unfold tree_lock. constructor; [simpl; intros [H0|[]]; discriminate|].
     constructor; [intros []|constructor].
+  Qed.
+
+  (* the declaring scope's own variable `event` is never touched — under any sharing, from
+     any state, by any schedule *)
+  Theorem outer_untouched (sh : sharing) sched : forall (s s' : state),
+    run (step sh) s sched = Some s' -> g_outer s' = g_outer s.
+  Proof.
+    induction sched as [|t rest IH]; intros s s'; simpl.
+    - intros [= <-]. reflexivity.
+    - destruct (step sh s t) as [s1|] eqn:E; [|discriminate]. intros H.
+      rewrite (IH _ _ H). unfold SinkInv.step in E.
+      destruct (nth_error (g_threads s) t) as [th|]; [|discriminate].
+      destruct (tstep sh t (g_env s) th) as [[env' th']|]; [|discriminate].
+      injection E as <-. reflexivity.
   Qed.
 End Sink.
 
